@@ -154,9 +154,10 @@ def gen(rng):
                   'lfs': rng.choice([0, 0, 30]) if lfs else 0, 'mem': rng.choice([0, 0, 16]) if mem else 0}
             ops.append(['alloc', hid, pos, sd]); live.append(hid); hid += 1
         else:
-            rr = {'n_cores': rng.choice([1, 1, 2, nc, rng.randint(1, nc)]), 'core_occ': rng.choice([U, U, U, 8, 4]),
+            # (shares in sixteenths, also such that are no multiple of a hundredth: 1/8, 3/8, 5/8)
+            rr = {'n_cores': rng.choice([1, 1, 2, nc, rng.randint(1, nc)]), 'core_occ': rng.choice([U, U, U, 8, 4, 2, 6, 10]),
                   # rank shapes with more GPUs than cores, GPUs partly taken by earlier requests
-                  'n_gpus': rng.choice([0, 0, 1, ng, max(1, ng - 1), 2 if ng >= 2 else 1]) if ng else 0, 'gpu_occ': rng.choice([U, U, U, 8]),
+                  'n_gpus': rng.choice([0, 0, 1, ng, max(1, ng - 1), 2 if ng >= 2 else 1]) if ng else 0, 'gpu_occ': rng.choice([U, U, U, 8, 2, 6, 10]),
                   'lfs': rng.choice([0, 0, 30, 60]) if lfs else 0, 'mem': rng.choice([0, 0, 16, 40]) if mem else 0}
             if rng.random() < 0.04: rr['n_cores'] = rng.choice([0, nc + 1])
             n = rng.choice([1, 1, 2, 3, nn, nn * 2, nn * nc])
